@@ -960,6 +960,7 @@ class StubsLib(StubsBase):
             return SArr(value.shape, value.elem, value.dtype, "dask")
 
         def delayed(c, f, pure=None, **k):
+            task_name_rule(c, "delayed", k)
             c.note("stub:dask.delayed(f)(*args) = f(*args) (pure task)")
             return Stub(lambda c2, *a, **kw: self.interp.call(f, a, kw, c2), "delayed-call")
         def map_blocks(c, func, x, *a, **kw):
